@@ -487,6 +487,11 @@ def cases_fixed(ctx, reduced):
             hp = ctx.hp(last=(pos, v))
             if isinstance(hp, Exception):
                 continue
+            others = [o for o in ctx.member_values(pos, reduced=True) if not R.same_value(ctx.specs[pos], o, v)]
+            if others:
+                # the value is re-assigned on a ranges object that has already answered a bounds query for another value
+                # (what a multi-fidelity searcher does before every suggestion)
+                yield dict(base, what="reassign", other=others[0])
             for t in _t_lattice(ctx, ctx.order(hp), not single):
                 yield dict(base, what="decode", t=t)
             for p in range(3 if single else 1):
@@ -498,6 +503,25 @@ def eval_fixed(ctx, case):
     spec, name = ctx.specs[pos], ctx.names[pos]
     hp = ctx.hp(last=(pos, v))
     descr = f"{ctx.specs} name_last_pos={name} value_for_last_pos={v!r}"
+    if what == "reassign":
+        if isinstance(hp, Exception):
+            return []
+        try:
+            want = [(float(a), float(b)) for a, b in hp.get_ndarray_bounds()]
+            hp2 = make_ranges(ctx.space(), name_last_pos=name, value_for_last_pos=case["other"])   # fresh, mutated below
+            hp2.get_ndarray_bounds()
+            hp2.value_for_last_pos = v
+            got = [(float(a), float(b)) for a, b in hp2.get_ndarray_bounds()]
+            cfg = hp2.random_config(R.StubRS((0,)))
+        except Exception as e:  # noqa: BLE001
+            return [(R.key("fixed", spec, "reassign-" + _exc(e)), f"{descr} (re-assigned from {case['other']!r}): raised {e}")]
+        ctx.obs = (pos, got)
+        if got != want:
+            return [(R.key("fixed", spec, "bounds-stale-after-reassigning-the-value"),
+                     f"{descr}: re-assigned from {case['other']!r} after a bounds query: bounds {got}, a fresh object gives {want}")]
+        if not (type(cfg.get(name)) is type(v) and cfg.get(name) == v):
+            return [(R.key("fixed", spec, "random_config-stale-after-reassigning-the-value"), f"{descr}: {cfg}")]
+        return []
     if isinstance(hp, Exception):
         if what != "bounds":
             return []
